@@ -361,37 +361,29 @@ func (ix *idxEngine) populateComplete(need map[string]bool) (bool, string) {
 	c := ix.c
 	dec := c.Named("texttable/decoration", "Decoration")
 	pop := c.Method(dec, true, "Populate")
-	def := c.Func("texttable/decoration", "decorateDefaultTo")
-	if pop == nil || def == nil {
-		return false, "Populate/decorateDefaultTo missing"
+	def := c.FuncOpt("texttable/decoration", "decorateDefaultTo") // the reflection helper, when Populate uses one
+	if pop == nil || dec == nil {
+		return false, "Populate missing"
 	}
 	filled := map[string]bool{}
-	// bases: fields stored with a non-empty constant under an emptiness test
-	eachInstr(pop, func(in ssa.Instruction) {
-		if st, ok := in.(*ssa.Store); ok {
-			if f, _ := storeField(st.Addr); f != nil {
-				if s, ok := constString(st.Val); ok && s != "" {
-					filled[f.Name()] = true
-				}
+	evs, okE, whyE := ix.populateFillEvents(pop, dec, def)
+	if !okE {
+		return false, whyE
+	}
+	for _, ev := range evs {
+		switch {
+		case ev.From == "":
+			filled[ev.To] = true
+		case ev.From == "?":
+			filled[ev.To] = false
+		case filled[ev.From]:
+			filled[ev.To] = true
+		default:
+			// filled from something not (yet) guaranteed: the target keeps whatever guarantee it had
+			if need[ev.To] && !filled[ev.To] {
+				return false, "default for " + ev.To + " is taken from " + ev.From + " which is not yet guaranteed non-empty"
 			}
 		}
-	})
-	// defaulted targets, in order: source must already be filled
-	ok := true
-	why := ""
-	pairs, okP, whyP := ix.defaultPairs(pop, def)
-	if !okP {
-		ok, why = false, whyP
-	}
-	for _, pr := range pairs {
-		to, from := pr[0], pr[1]
-		if !filled[from] {
-			ok, why = false, "default for "+to+" is taken from "+from+" which is not yet guaranteed non-empty"
-		}
-		filled[to] = true
-	}
-	if !ok {
-		return false, why
 	}
 	for n := range need {
 		if !filled[n] {
